@@ -22,9 +22,19 @@ def edge_length(g):
 class P(Prop):
     id = "C10"
     design_ref = "DESIGN.md section 5, C10"
-    theorems = []
+    M = "TracklibVerif.Props.C10"
+    theorems = [
+        (M, "TV.C10.candidate_sound", "STATES[i] is never empty and holds the flag state or sound candidates: existing edge number, point on a segment of its geometry, d < radius, d0 + d1 = edge length"),
+        (M, "TV.C10.all_states_sound", "STATES has one such list per observation, in order"),
+        (M, "TV.C10.inferred_is_candidate", "for every decoder: hmm_inference[k] is one of STATES[k], so every observation is flagged or assigned a sound candidate"),
+        (M, "TV.C10.track_preserved", "mode 1 (any mode outside {3,4,5}): same observations, order, positions, timestamps; only obs_noise / hmm_inference / hmm_cost are created"),
+        (M, "TV.C10.timestamps_preserved", "every mode: count and timestamps unchanged"),
+        (M, "TV.C10.decoder_in_range_total", "a decoder answering in-range indices never makes the backward step fail"),
+    ]
     partial = []
-    open_statements = []
+    open_statements = ["the spatial index (candidate edge numbers) and the HMM decoder (indices) are parameters: completeness of the candidates (no edge within the radius is missed) "
+                       "is not claimed by the property and not proved; exceptions (ZeroDivisionError on vertical segments, OverflowError in the transition model) are outside the "
+                       "theorems and reported as findings"]
     modelled = ("algo/mapping.py __mapOnNetwork: candidate loop (projection on the edge geometry, d < search_radius, __distToNode from abs_curv), flag state, "
                 "hmm_inference from the decoded indices, created feature columns, positions untouched for mode 1; computeAbsCurv (ds + INTEGRATOR). "
                 "Parameters of the model (taken from the real run): spatial_index.neighborhood results, HMM-decoded state indices")
